@@ -65,6 +65,29 @@ func VerifC09_total() {
 	vfAssert(true, "no-panic")
 }
 
+// VerifC09_shared: a row that was added to two tables and then extended.
+func VerifC09_shared() {
+	t1, t2 := tabular.New(), tabular.New()
+	if vfChoice("hdr", 2) == 1 {
+		t1.AddHeaders("h")
+	}
+	r := tabular.NewRow()
+	n := vfChoice("cells", 3)
+	for i := 0; i < n; i++ {
+		r.Add(tabular.NewCell("c"))
+	}
+	t1.AddRow(r)
+	t2.AddRow(r)
+	m := 1 + vfChoice("more", 2)
+	for i := 0; i < m; i++ {
+		r.Add(tabular.NewCell("late"))
+	}
+	vfTag("row-in-two-tables")
+	vfRenderAll(t1, 2, true)
+	vfRenderAll(t2, 2, true)
+	vfAssert(true, "shared-no-panic")
+}
+
 // VerifC09_kept: renderer objects that are kept, used, and used again after the table has grown.
 func VerifC09_kept() {
 	t := tabular.New()
